@@ -44,6 +44,23 @@ CLAIMED = {
              "trigonometry and fix_rigid only by correspondence at 1e-9. One defect repaired (re-parenting left the "
              "superseded edge).",
         technique="Lean 4 proof (refinement of the cached state machine to path products) + generated table + differential histories"),
+    "C03": dict(
+        category="proof", design_ref="DESIGN.md 5 C03",
+        text="The ten per-face polynomials of triangles.mass_properties are traced symbolically from the real "
+             "function on every run (numpy proxy over exact polynomials; straight-line and linearity checked) and "
+             "Lean proves over any field of characteristic 0: each equals the exact moment of the signed "
+             "tetrahedron (origin, face) plus antisymmetric edge terms (ring, 20 generated obligations), hence for "
+             "every closed consistently wound triangle list of any size, genus and body count the sums the code "
+             "forms are the exact integrals of 1,x,y,z,x2,y2,z2,xy,yz,zx (C03_closed_sum); the enclosed volume is "
+             "apex independent; at the centroid the code's tensor is the inertia about it (parallel axis), density "
+             "is linear; with an overridden centre the gap to the inertia about that point is an explicit formula "
+             "(known finding). The driver evaluates the traced polynomials (proved equal at K=Q) and the exact "
+             "moments on rational inputs and the implementation's float results are compared at 1e-10.",
+        note="Trusted: Lean kernel (+propext/Classical.choice/Quot.sound), the symbolic tracer, the closed-form "
+             "tetrahedron moments as the definition of the exact integrals (divergence theorem not formalised: "
+             "cone decomposition + apex independence instead), float64 rounding only through the comparison; "
+             "moment_inertia_frame / transform_inertia by correspondence only.",
+        technique="Lean 4 proof (ring + closed-surface sum theorem) over polynomials regenerated by symbolic tracing + differential correspondence"),
     "C05": dict(
         category="proof", design_ref="DESIGN.md 5 C05",
         text="Lean 4 theorems for arbitrary face lists (non-manifold, repeated indices, repeated faces, "
